@@ -418,8 +418,19 @@ def gen_extras_pair(rng):
     n = rng.randint(2, 4)
     keys = rng.sample(["alpha", "beta", "gamma", "delta", "eps"], rng.randint(1, 4))
     kinds = {k: rng.choice(EXTRA_KINDS) for k in keys}
-    rel = rng.choice(["same", "type", "type", "value", "key"])
+    rel = rng.choice(["same", "type", "type", "value", "key", "swap"])
     which = rng.choice(keys)
+    if rel == "swap":
+        if len(keys) < 2:
+            rel = "same"
+        else:
+            # the values of two entries exchanged, and the entries written in the other order (so that a comparison
+            # by position instead of by key sees nothing)
+            k1, k2 = rng.sample(keys, 2)
+            kd = rng.choice(["float", "int", "str", "arr", "list"])
+            kinds[k1] = kinds[k2] = kd
+            return {"n": n, "kinds": kinds, "rel": "swap", "which": k1, "other_key": k2, "kernel": rng.random() < 0.3,
+                    "reorder": True}
     if rel == "type":
         pr = rng.choice(TWINS)
         a, b = pr if rng.random() < 0.5 else pr[::-1]
@@ -427,7 +438,8 @@ def gen_extras_pair(rng):
         if a in ("int", "bool"):
             pass
         return {"n": n, "kinds": kinds, "rel": rel, "which": which, "other": b, "kernel": rng.random() < 0.3}
-    return {"n": n, "kinds": kinds, "rel": rel, "which": which, "kernel": rng.random() < 0.3}
+    return {"n": n, "kinds": kinds, "rel": rel, "which": which, "kernel": rng.random() < 0.3,
+            "reorder": rng.random() < 0.5}      # the second result's extras are written in the reverse key order
 
 
 def run_extras_pair(case):
@@ -454,6 +466,11 @@ def run_extras_pair(case):
             eb[w] = extra_value(case["kinds"][w], i + 7)
         elif case["rel"] == "key":
             del eb[w]
+        elif case["rel"] == "swap":
+            k2 = case["other_key"]
+            eb[w], eb[k2] = eb[k2], eb[w]
+        if case.get("reorder"):
+            eb = {k: eb[k] for k in reversed(list(eb))}
         a, b = res(ea), res(eb)
 
         def dd(x, y):
@@ -485,7 +502,7 @@ def check_extras_pair(ctx, c, o):
         return
     if c["rel"] == "same" and not (r["eq"] and r["diff"] == [False, []]):
         ctx.oracle_fail(c, {"oracle": f"identically constructed results differ: {r}"})
-    if c["rel"] in ("value", "key") and c["kinds"][c["which"]] != "none" and \
+    if c["rel"] in ("value", "key", "swap") and c["kinds"][c["which"]] != "none" and \
             (r["eq"] or r["aequals"] or r["diff"] != [False, ["extra_"]]):
         ctx.oracle_fail(c, {"oracle": f"one extra entry changed but the comparison says {r}"})
     if r["eq"] != (r["diff"] == [False, []]):
